@@ -1,3 +1,4 @@
+// @READY (registered in vf/props.py)
 // appended to src/common/alc.rs (scratch copy only)
 #[cfg(any(kani, test))]
 #[allow(dead_code, unused_imports, unused_macros)]
